@@ -8,7 +8,7 @@ from vf.monitors import OperatorMonitor, capture, describe
 from vf.ref import logic
 
 from ahbicht.expressions.condition_expression_parser import parse_condition_expression_to_tree
-from ahbicht.expressions.requirement_constraint_expression_evaluation import requirement_constraint_evaluation
+from ahbicht.expressions.requirement_constraint_expression_evaluation import evaluate_requirement_constraint_tree, requirement_constraint_evaluation
 
 
 def nontrivial(ast) -> bool:
@@ -42,6 +42,16 @@ async def check_expression(ctx, case, async_budget=12):
             ctx.violation("state", f"{s!r} under {asg}: evaluate_requirement_constraint_tree gives {logic.NAME[val[0]]}, recursive four-valued semantics gives {logic.NAME[expected]}", case=dict(case, assignments=[asg]))
         if "K" in asg.values():
             ctx.count("evaluations_with_unknown")
+        if rng.random() < 0.1:
+            # the caller keeps its input nodes and its tree and evaluates again: nothing may have been consumed or altered
+            nodes = H.input_nodes(ast, asg)
+            r1 = capture(evaluate_requirement_constraint_tree, tree, nodes)
+            r2 = capture(evaluate_requirement_constraint_tree, tree, nodes)
+            ctx.count("re_evaluations_with_same_objects")
+            a = getattr(r1[1], "conditions_fulfilled", r1[1]) if r1[0] == "ok" else type(r1[1]).__name__
+            b = getattr(r2[1], "conditions_fulfilled", r2[1]) if r2[0] == "ok" else type(r2[1]).__name__
+            if a != b or (r1[0] == "ok" and (getattr(r1[1], "hint", None), getattr(r1[1], "format_constraints_expression", None)) != (getattr(r2[1], "hint", None), getattr(r2[1], "format_constraints_expression", None))):
+                ctx.violation("re-evaluation-differs", f"{s!r} under {asg}: evaluating twice with the same tree and the same input node objects gives {r1[1]!r:.200} and then {r2[1]!r:.200}", case=dict(case, assignments=[asg]))
     # the async API: same state, reported per the documented mapping
     picks = asgs if len(asgs) <= async_budget else rng.sample(asgs, async_budget)
     for asg in picks:
